@@ -45,7 +45,7 @@ pub struct Hist {
 pub fn hist() -> impl Strategy<Value = Hist> {
     let spec = prop_oneof![
         3 => c14::pair().prop_map(|p| ProgSpec::Gen(Box::new(p))),
-        6 => (0u8..9, 0u8..4, any::<u16>()).prop_map(|(f, r, v)| ProgSpec::Shared(f, r, v)),
+        6 => (0u8..10, 0u8..4, any::<u16>()).prop_map(|(f, r, v)| ProgSpec::Shared(f, r, v)),
         1 => c11::raw_tree().prop_map(|mut t| { t.missing = None; ProgSpec::Tree(t) }),
     ];
     let op = prop_oneof![
@@ -65,7 +65,7 @@ pub enum Prog {
 /// The same shared name gets a different meaning in every role.
 pub fn shared_program(name: &str, family: u8, role: u8, v: u16) -> String {
     let v = v as u32 % 60000;
-    match (family % 9, role % 4) {
+    match (family % 10, role % 4) {
         (0, 0) => format!(".equ {} = {}\n.dw {}", name, v, name),
         (0, 1) => format!(".equ {} = {}\nldi r16, low({})", name.to_uppercase(), v + 1, name),
         (0, _) => format!(".dw {}", name),
@@ -98,6 +98,12 @@ pub fn shared_program(name: &str, family: u8, role: u8, v: u16) -> String {
         (8, 1) => (0..12).map(|i| format!(".equ {}_{} = {}_{} + 1\n", name, i, name, i + 1)).collect::<String>() + &format!(".equ {}_12 = {}\n.dw {}_0", name, v % 1000, name),
         (8, 2) => format!(".macro {}\n{}\n.endm\n{}", name, name, name),
         (8, _) => (0..6).map(|i| format!(".macro {}_{}\n{}\n.endm\n", name, i, if i == 0 { "nop".to_string() } else { format!("{}_{}", name, i - 1) })).collect::<String>() + &format!("{}_5\n{}_5", name, name),
+        // several definitions of one name (also in another letter case) in the same program: whatever
+        // the documented outcome is (last one wins, or an error), it is the same every time
+        (9, 0) => format!(".macro {}\n.dw 1\n.endm\n.macro {}\n.dw 2\n.endm\n.macro {}\n.dw 3\n.endm\n{}\n{}", name, name.to_uppercase(), name.to_lowercase(), name, name.to_uppercase()),
+        (9, 1) => format!(".equ {} = 1\n.equ {} = 2\n.equ {} = 3\n.dw {}", name, name.to_uppercase(), name.to_lowercase(), name),
+        (9, 2) => format!(".def {} = r16\n.def {} = r17\n.def {} = r18\nmov {}, r1", name, name.to_uppercase(), name.to_lowercase(), name),
+        (9, _) => format!(".define {}\n.define {}\n.ifdef {}\n.dw 1\n.endif\n.ifdef {}\n.dw 2\n.endif\n.ifdef {}\n.dw 3\n.endif", name, name.to_uppercase(), name, name.to_uppercase(), name.to_lowercase()),
         (_, _) => "nop".to_string(),
     }
 }
